@@ -164,6 +164,48 @@ var c19Listed = map[int]bool{1: true, 2: true, 3: true, 4: true, 5: true, 6: tru
 
 func c19Pair(a, b int32) string { return L(I32(a), I32(b)) }
 
+// The caller owns what a function returns.  After rendering a returned slice the executor overwrites it: if
+// the result aliased an argument, a shared index or a table, that shows as a changed input / a wrong answer in
+// another goroutine / a race report.
+func c19U64s(r []uint64) string {
+	s := U64s(r)
+	for i := range r {
+		r[i] = ^r[i]
+	}
+	return s
+}
+func c19I32s(r []int32) string {
+	s := I32s(r)
+	for i := range r {
+		r[i] = ^r[i]
+	}
+	return s
+}
+func c19Bytes(r []byte) string {
+	s := Bytes(r)
+	for i := range r {
+		r[i] = ^r[i]
+	}
+	return s
+}
+func c19ByteSlices(r [][]byte) string {
+	s := ByteSlices(r)
+	for i := range r {
+		for j := range r[i] {
+			r[i][j] = ^r[i][j]
+		}
+		r[i] = nil
+	}
+	return s
+}
+func c19Strs(r []string) string {
+	s := Strs(r)
+	for i := range r {
+		r[i] = ""
+	}
+	return s
+}
+
 // c19Do runs one call of the REAL function on the shared inputs and renders the result.
 func c19Do(sh *c19Shared, c c19Call) string {
 	i1, i2, i3 := int32(c.p1), int32(c.p2), int32(c.p3)
@@ -185,9 +227,9 @@ func c19Do(sh *c19Shared, c c19Call) string {
 	case 6:
 		return I32(bitmap.PrevOne(sh.words, i1, i2))
 	case 7:
-		return U64s(bitmap.Slice(sh.words, i1, i2))
+		return c19U64s(bitmap.Slice(sh.words, i1, i2))
 	case 8:
-		return I32s(bitmap.ToArray(sh.words))
+		return c19I32s(bitmap.ToArray(sh.words))
 	case 9:
 		return U(bitmap.Getw(sh.words, i1, i2))
 	case 10:
@@ -202,14 +244,14 @@ func c19Do(sh *c19Shared, c c19Call) string {
 	case 14:
 		return U(bitmap.SafeGet1(sh.words, i1))
 	case 15:
-		return I32s(bitmap.IndexRank64(sh.words))
+		return c19I32s(bitmap.IndexRank64(sh.words))
 	case 16:
-		return I32s(bitmap.IndexRank128(sh.words))
+		return c19I32s(bitmap.IndexRank128(sh.words))
 	case 17:
-		return I32s(bitmap.IndexSelect32(sh.words))
+		return c19I32s(bitmap.IndexSelect32(sh.words))
 	case 18:
 		a, b := bitmap.IndexSelect32R64(sh.words)
-		return L(I32s(a), I32s(b))
+		return L(c19I32s(a), c19I32s(b))
 	case 20:
 		return I32(bmtree.PathToIndex(sh.tsize, c.p1))
 	case 21:
@@ -217,13 +259,13 @@ func c19Do(sh *c19Shared, c c19Call) string {
 	case 22:
 		return U(bmtree.IndexToPath(i1, i2))
 	case 23:
-		return U64s(bmtree.AllPaths(sh.tsize, c.p1, c.p2))
+		return c19U64s(bmtree.AllPaths(sh.tsize, c.p1, c.p2))
 	case 24:
-		return U64s(bmtree.Decode(sh.tsize, sh.words))
+		return c19U64s(bmtree.Decode(sh.tsize, sh.words))
 	case 25:
 		return U(bmtree.PathOf(sh.keys[c.p1], i2, i3))
 	case 26:
-		return U64s(bmtree.PathsOf(sh.keys, i1, i2, c.p3 != 0))
+		return c19U64s(bmtree.PathsOf(sh.keys, i1, i2, c.p3 != 0))
 	case 30:
 		return Int(bitstr.Cmp(sh.bs[c.p1], sh.bs[c.p2]))
 	case 31:
@@ -233,9 +275,9 @@ func c19Do(sh *c19Shared, c c19Call) string {
 	case 33:
 		return I32(bitstr.Len(sh.bs[c.p1]))
 	case 34:
-		return Bytes(bitstr.New(sh.keys[c.p1], i2, i3))
+		return c19Bytes(bitstr.New(sh.keys[c.p1], i2, i3))
 	case 40:
-		return Bytes(bitword.BitWord[int(c.p1)].FromStr(sh.keys[c.p2]))
+		return c19Bytes(bitword.BitWord[int(c.p1)].FromStr(sh.keys[c.p2]))
 	case 41:
 		return Str(bitword.BitWord[int(c.p1)].ToStr(sh.fs[int(c.p1)][c.p2]))
 	case 42:
@@ -243,11 +285,11 @@ func c19Do(sh *c19Shared, c c19Call) string {
 	case 43:
 		return Int(bitword.BitWord[int(c.p1)].FirstDiff(sh.keys[c.p2], sh.keys[c.p3], 0, -1))
 	case 44:
-		return ByteSlices(bitword.BitWord[int(c.p1)].FromStrs(sh.keys))
+		return c19ByteSlices(bitword.BitWord[int(c.p1)].FromStrs(sh.keys))
 	case 45:
-		return Strs(bitword.BitWord[int(c.p1)].ToStrs(sh.fs[int(c.p1)]))
+		return c19Strs(bitword.BitWord[int(c.p1)].ToStrs(sh.fs[int(c.p1)]))
 	case 60:
-		return U64s(bitmap.Of(sh.pos, int32(64*len(sh.words))))
+		return c19U64s(bitmap.Of(sh.pos, int32(64*len(sh.words))))
 	case 61:
 		// a Builder of this goroutine alone: the positions below 64*p1 in one Extend, the others by Set
 		b := bitmap.NewBuilder(int32(64 * len(sh.words)))
@@ -277,16 +319,16 @@ func c19Do(sh *c19Shared, c c19Call) string {
 		}
 		return L(I(tb.Offset), U64s(tb.Words), L(probe...))
 	case 50:
-		return I32s(sigbits.FirstDiffBits(sh.keys))
+		return c19I32s(sigbits.FirstDiffBits(sh.keys))
 	case 51:
 		a, b := sigbits.ShardByPrefix(sh.keys, i1)
-		return L(I32s(a), I32s(b))
+		return L(c19I32s(a), c19I32s(b))
 	case 52:
 		m, cnt := sh.sb.CountPrefixes(i1, i2, i3)
-		return L(I32(m), I32s(cnt))
+		return L(I32(m), c19I32s(cnt))
 	case 53:
 		m, cnt := sigbits.New(sh.keys).CountPrefixes(0, int32(len(sh.keys)), 9)
-		return L(I32(m), I32s(cnt))
+		return L(I32(m), c19I32s(cnt))
 	}
 	panic("c19: unknown function id")
 }
@@ -591,6 +633,46 @@ func (x *c19Gen) emit(T, R int, calls []c19Call, bucket string) {
 	g.Stat(bucket)
 	g.Stat(fmt.Sprintf("goroutines:%d", T))
 	g.Do("c19.Batch", L(Int(T), Int(R), U64s(x.words), I32(x.tsize), Strs(x.keys), L(txt...)), key)
+	x.againstModel(calls)
+}
+
+// againstModel ties the refs to the Coq MODEL: one call of the batch whose function has a finished model
+// (Rank64/Rank128: C01, Select32/Select32R64: C02, NextOne/PrevOne: C13) is also emitted as an ordinary case of
+// that property's operation, which the driver judges against M and S.  (c19.Batch itself says concurrent = alone;
+// this says alone = M.)  Trivial key: these lines do not count as C19 cases of their own.
+func (x *c19Gen) againstModel(calls []c19Call) {
+	g := x.g
+	start := g.R.Intn(len(calls))
+	for k := range calls {
+		c := calls[(start+k)%len(calls)]
+		ws := x.words
+		if c.fid > 100 {
+			ws = x.words2
+		}
+		var op, args string
+		switch c.fid % 100 {
+		case 1:
+			op, args = "bitmap.Rank64", L(U64s(ws), "0", U(c.p1))
+		case 2:
+			op, args = "bitmap.Rank128", L(U64s(ws), U(c.p1))
+		case 3:
+			op, args = "bitmap.Select32", L(U64s(ws), U(c.p1))
+		case 4:
+			op, args = "bitmap.Select32R64", L(U64s(ws), U(c.p1))
+		case 5:
+			op, args = "bitmap.NextOne", L(U64s(ws), U(c.p1), U(c.p2))
+		case 6:
+			op, args = "bitmap.PrevOne", L(U64s(ws), U(c.p1), U(c.p2))
+		default:
+			continue
+		}
+		if _, ok := Exec[op]; !ok {
+			return
+		}
+		g.Stat("alone-vs-model:" + op)
+		g.Do(op, args, "")
+		return
+	}
 }
 
 // c19OneBacking re-creates the keys as substrings of ONE freshly allocated string, so that all key bytes
